@@ -80,6 +80,97 @@ CLAIMED = {
             "writes, delay calls, pass markers) against the same specification.",
             "Trusted: TLC, g++, the mock core, the projection in which a firmware tick is identified by its millis() read. Bounded to the grids and "
             "generated schedules. Two known deviations matched exactly.", "DESIGN.md §5 C18"),
+    "C05": ("model_checking",
+            "TLA+ Board monitor (configure-before-use, never re-moded, phase order, once-per-pass sampling) proved by TLC to accept exactly the "
+            "declarative discipline; TLC-enumerated scenarios run as firmware; projected event traces validated by TLC (BoardTrace); persistence across passes judged three-way by Lang",
+            "TLC checks MonitorExact (the monitor accepts a history iff the declarative discipline holds) over all event sequences up to the bound, "
+            "enumerates device kind x placement (before the loop / top of its body) x first use (setup / loop / helper) x buttons x second device, "
+            "and validates the firmware trace of every scenario for 3 passes; break placements that would leave the main loop must be refused; "
+            "prologue-once and value persistence are judged against the Lang spec and CPython.",
+            "Trusted: TLC, g++, mock core, the projection of raw events (a motor triple is (LOW,LOW,0) = safe stop). Bounded to the scenario grid, "
+            "3 passes, one device of each kind plus riders.", "DESIGN.md §5 C05"),
+    "C06": ("exploration",
+            "transpilation protocol + C06 obligation (Compilable.tla) and structural spec of the emitted text (Sketch.tla) model-checked by TLC; "
+            "TLC-enumerated string-literal family, program families and device multisets transpiled and compiled with g++ against the mock core; "
+            "observations validated by TLC (CompileTrace, SketchTrace)",
+            "The compiler is the oracle for declared-before-use and typing; the specifications supply the program space (every printable character "
+            "and escape x 8 literal positions, expression / control / typeflow / fold families, device multisets, a scope family), the protocol "
+            "(after Accept only Compile(TRUE); literals read back unchanged from the running firmware) and the structural invariants (one setup/loop, "
+            "unique definitions, include <=> class). Known compile failures are matched by the syntactic construct that triggers them.",
+            "Trusted: g++ -std=gnu++17 -fpermissive against /verif/mock stands in for avr-gcc (not installed); TLC; the light sketch scanner. "
+            "Exploration, not proof: bounded to the enumerated families and seeds.", "DESIGN.md §5 C06"),
+    "C07": ("model_checking",
+            "TLA+ Layout spec (Python's INDENT/DEDENT block structure, Ignorable, Relayouts) model-checked by TLC; TLC-enumerated re-layouts of 13 skeleton "
+            "scripts and a statement-kind x context catalogue run through the real parse()/emit(); IR block paths, output digests and "
+            "translated/rejected/skipped outcomes decided by TLC (LayoutTrace); CPython's ast is the reference leg",
+            "TLC exhaustively checks the block-structure machine (comment / blank lines never change a path, dedents pop to an enclosing level), "
+            "enumerates every re-layout with one deviation (two in thorough) and seeded many-deviation walks over indent unit, comment lines per gap "
+            "and column, trailing comments, whitespace and spacing; for each layout CPython's AST must equal the canonical one, the real IR must place "
+            "every numbered statement at the spec's path and the emitted C++ must be byte-identical; every statement kind in every context must be "
+            "translated, rejected, or in the spec's fixed ignorable set (observed through the REDUINO_VERIF hook and black-box).",
+            "Trusted: TLC, CPython ast as reference, the unique-number locator. Bounded to the skeletons, <= 2 exhaustive deviations + walks, the 82-kind "
+            "catalogue. Known deviations matched exactly (KnownShape / KnownReject / KnownDrop).", "DESIGN.md §5 C07"),
+    "C08": ("model_checking",
+            "TLA+ spec of Python's call-argument binding (Bind) model-checked by TLC over all small signatures; TLC-enumerated call shapes of every host-API "
+            "callable executed by inspect.Signature.bind (reference) and by the real parser (IR fields); observed bindings validated by TLC (BindTrace)",
+            "Python's binding algorithm is a TLA+ machine whose equivalence with its closed form and with the property's statement TLC checks for "
+            "every signature <= 3 (thorough 4) parameters and every shape. For the 75 documented callables TLC enumerates every positional/keyword "
+            "split x keyword subset x order x omitted defaults plus illegal shapes; each shape is bound by inspect on the host signature and parsed "
+            "by the real transpiler, and TLC judges every record: IR field = Python's binding, or rejected.",
+            "Trusted: TLC, inspect, the hand-built table parameter->IR field (harness/bind_rec.py). Parse-only. Shapes Python rejects are counted, not "
+            "judged. LCD constructor keyword orders capped at 5 in thorough.", "DESIGN.md §5 C08"),
+    "C09": ("model_checking",
+            "heap law (Heap.tla) as a TLC-checked monitor over alloc/free/pass/memerr events, with IndexError-freedom and live data per pass computed by "
+            "the Lang spec; TLC-enumerated list/str operation histories run as ASan+UBSan firmware with allocation tracing; traces validated by TLC (HeapTrace)",
+            "Every history of <= 2 (thorough 3) list/str operations x three placements relative to the main loop that the Lang spec finds free of "
+            "IndexError/ValueError is executed for 4 passes under AddressSanitizer/UBSan with operator new[]/delete[] interposed; TLC checks "
+            "free-only-live, no double free, no sanitizer report, and heap constant from pass to pass whenever the spec's live Python data is.",
+            "Trusted: TLC, ASan/UBSan as observers of out-of-bounds and use-after-free, the mock runtime's allocator interposition. String buffers are "
+            "std::string in the mock (sanitizer only). Two known deviations probed with exact signatures.", "DESIGN.md §5 C09"),
+    "C12": ("model_checking",
+            "TLA+ workflow spec of target() with faults (Target.tla) model-checked by TLC over all 192 configurations x fault points; every configuration "
+            "executed against the real target() with recording fakes and the fault injected, for 10 calling scripts; recorded event traces validated by TLC",
+            "TLC exhaustively checks the named invariants (nothing before validation, PlatformIO only if upload, missing PlatformIO is a RuntimeError before "
+            "any write, upload only after a successful build, run iff upload, failures propagate, returns exactly emit(parse(text)), ini names the "
+            "given configuration) and validates 1 920 (thorough 9 600) traces of the real target(), one per configuration, fault point and script.",
+            "Trusted: TLC, the recording fakes (subprocess / shutil.which / tempfile / __main__), the audit-hook file observer, configparser. One fault "
+            "per call; real PlatformIO is never run.", "DESIGN.md §5 C12"),
+    "C13": ("model_checking",
+            "TLA+ specs of the board registry (exported from the code at check time) and of project generation over an abstract file system, checked by TLC; "
+            "the full product of candidate platform x board names and TLC-emitted library lists executed against the real validate_platform_board / "
+            "write_project; outcomes, main.cpp bytes, platformio.ini read back through configparser and directory listings validated by TLC",
+            "TLC evaluates the registry law on the exported registry and decides every one of 19 734 (thorough 73 140) real validations and 1 242 "
+            "(thorough 11 742) real write_project calls - every board id, every library list of length <= 4, generated ports, sources incl. non-ASCII; "
+            "Dedup / Sanitize laws hold for all lists and ids; the abstract FS machine keeps RoundTrip and OtherDirectoriesUntouched.",
+            "Trusted: TLC, ConfigParser(interpolation=None) as the standard INI reader, audit-hook + digest observer. Ports: printable, no line breaks, "
+            "no leading/trailing whitespace (not representable in an INI value).", "DESIGN.md §5 C13"),
+    "C16": ("model_checking",
+            "TLA+ Buzzer spec (tone protocol as ToneOn/ToneOff/Wait micro-steps) model-checked by TLC; TLC-generated call histories rendered as packed "
+            "scripts (literal and run-time arguments), compiled against the mock core and executed; per-call tone/noTone/delay waveforms and getter "
+            "printouts validated by TLC (BuzzerTrace)",
+            "The tone protocol is a TLA+ step relation transcribed from the property statement (no host model exists). TLC checks all named invariants "
+            "(no tone at <= 0 Hz, silent after timed calls, beep count and gaps, sweep monotone / ends on end / within duration, melody follows the "
+            "score with 60000/tempo scaling, getters track the tone) in every micro-state of call sequences of every length over the grids, then "
+            "validates firmware traces of every grid call, call pairs and random walks as members of that relation.",
+            "Trusted: TLC, g++, mock core, the reading of the informal statement where it is silent (notes/C16.md). The spec's copy of the tunes is "
+            "cross-checked against the emitter's table (mismatch = SPEC-GAP). Three known deviations matched exactly.", "DESIGN.md §5 C16"),
+    "C17": ("model_checking",
+            "TLA+ spec LCDText (cell matrix, backlight, glyph slots, progress) model-checked by TLC; TLC-generated call histories executed on the host LCD "
+            "class and as firmware against a mock HD44780; both traces validated by TLC against the same spec",
+            "Every generated LCD call history (random walks over cols {1..5,8,16,20,40} x rows 1..4 x wirings, plus every call of the exhaustive small "
+            "text grid) runs on Reduino.Displays.LCD and as firmware; every recorded call on both sides must be a step LCDText allows. Text placement "
+            "is a function of the call, so two accepted traces have identical cells; progress fill is membership in the allowed set plus monotonicity; "
+            "backlight pin = IF on THEN brightness ELSE 0; glyph uploads are 8 five-bit rows.",
+            "Trusted: TLC, g++, the mock LiquidCrystal (visible window, row clamp). Bounded: exhaustive single-call grid to cols 5 x rows 2; larger "
+            "geometries by seeded walks. Four known deviations matched exactly.", "DESIGN.md §5 C17"),
+    "C20": ("model_checking",
+            "TLA+ specs CorePins, Utils, HostSensors, SerialMon model-checked by TLC; TLC-generated call histories replayed in-process into the real host "
+            "modules (fake pyserial, replaced time.sleep, provider callables); recorded traces validated by TLC",
+            "TLC exhaustively checks read-your-writes, int/str aliasing, non-interference, clamp, pull-up default (unbounded histories over the grids), "
+            "map endpoints / midpoint law and zero-span refusal, sleep once / ms/1000 / negatives refused, click = rising edge for all signals to 6-8 "
+            "samples, the serial write / connect / close machine, and validates traces recorded from the real modules, with exact rational "
+            "comparison of map on Fraction arguments and a stated 1e-9 tolerance on floats.",
+            "Trusted: TLC, the recorders. Bounded to dyadic grid values and the generated histories. Two known deviations matched exactly.", "DESIGN.md §5 C20"),
 }
 NOT_YET = {}
 
@@ -108,7 +199,7 @@ def main():
         "version": 1,
         "setup_cmd": "./setup.sh",
         "hooks": {"guard": "REDUINO_VERIF", "enable": "checks run /repo/src from the working tree with REDUINO_VERIF=1 in the environment",
-                  "baseline_off_cmd": BASE, "source_commits": [], "add_only": True},
+                  "baseline_off_cmd": BASE, "source_commits": ["1ed986b"], "add_only": True},
         "engines": [{"name": "tlc", "path": "harness/tlc.py", "serves_properties": sorted(CLAIMED),
                      "kind_free_text": "TLC 1.8 (model checking of tla/*.tla, behaviour generation, batch trace validation) driven by harness/*.py; "
                                        "firmware leg = emitted C++ compiled with g++ against mock/ and executed"}],
